@@ -37,6 +37,7 @@ BetF == {"actors", "opener", "bringSt", "complSt", "raiseAmt", "raiseCnt", "acte
 RunF == {"selPend", "runout", "runFlag", "retIdx", "retCnt"}
 PhaseF == {"status", "street", "antePend", "collPend", "blindPend", "pullPend", "killPend", "fault", "domain"} \cup DealF
 StateClauses == {"post", "create"}
+ViewBet == {"actor", "turn", "call", "minto", "potto", "maxto"}
 TwinClauses == {"twin-state", "twin-log", "twin-flag", "twin-payoffs", "twin-stacks", "twin-actions", "twin-cards", "twin-tokens",
                 "twin-unknown-kind", "copy-other-changed", "copy-digest-changed", "copy-diverged"}
 RuleClauses == {"rule", "microrule", "steprule"}
@@ -46,9 +47,11 @@ RelBase(Q, clause, op, names, kinds) ==
                     \/ clause \in {"pots", "total-pot"}
                     \/ clause \in StateClauses /\ names \cap ChipF # {} /\ op \in ForcedOps
     [] Q = "C02" -> \/ clause \in RuleClauses /\ names \cap RulesOf("C02") # {}
+                    \/ clause = "view" /\ names \cap {"hands", "boards"} # {}
                     \/ clause = "pots"
                     \/ clause \in StateClauses /\ "PUSH" \in kinds /\ names \cap (PotF \cup ChipF \cup {"log"}) # {}
     [] Q = "C03" -> \/ clause \in RuleClauses /\ names \cap RulesOf("C03") # {}
+                    \/ clause = "view" /\ names \cap ViewBet # {}
                     \/ clause \in {"probe", "verifier", "outcome", "refused-but-changed"} /\ op \in BetOps
                     \/ clause \in StateClauses /\ names \cap BetF # {}
                     \/ clause \in StateClauses /\ op \in BetOps /\ names \cap (ChipF \cup {"alive", "log", "allin"}) # {}
@@ -57,20 +60,24 @@ RelBase(Q, clause, op, names, kinds) ==
     [] Q = "C07" -> \/ clause \in RuleClauses /\ names \cap RulesOf("C07") # {}
                     \/ clause \in {"outcome-other", "create-raised", "fault"}
                     \/ clause \in StateClauses /\ names \cap PhaseF # {}
-    [] Q = "C08" -> clause \in {"probe", "probe-raised", "verifier", "query-changed-state", "outcome", "outcome-other", "refused-but-changed"}
+    [] Q = "C08" -> clause = "view" \/ clause \in {"probe", "probe-raised", "verifier", "query-changed-state", "outcome", "outcome-other", "refused-but-changed"}
     [] Q = "C10" -> \/ clause \in RuleClauses /\ names \cap RulesOf("C10") # {}
+                    \/ clause = "view" /\ names \cap {"dealee", "drawer"} # {}
                     \/ clause \in {"probe", "verifier", "outcome", "refused-but-changed"} /\ op \in DealOps
                     \/ clause \in StateClauses /\ names \cap (DealF \cup {"hole", "up", "board"}) # {}
                     \/ clause \in StateClauses /\ kinds \cap {"CB", "HD", "BD", "SD"} # {} /\ "log" \in names
     [] Q = "C12" -> \/ clause \in RuleClauses /\ names \cap RulesOf("C12") # {}
+                    \/ clause = "view" /\ names \cap {"canwin", "hands", "shower"} # {}
                     \/ clause \in TwinClauses
                     \/ clause \in {"probe", "verifier", "outcome", "refused-but-changed"} /\ op \in ShowOps
                     \/ clause \in StateClauses /\ kinds \cap {"SM", "HK"} # {}
                          /\ names \cap ({"log", "alive", "killPend", "showq", "hole", "up", "muck"} \cup ChipF) # {}
     [] Q = "C13" -> \/ clause \in RuleClauses /\ names \cap RulesOf("C13") # {}
+                    \/ clause = "view" /\ names \cap {"actor", "turn"} # {}
                     \/ clause \in StateClauses /\ names \cap {"opener", "actors"} # {}
                     \/ clause \in StateClauses /\ "BI" \in kinds /\ "log" \in names
     [] Q = "C14" -> \/ clause \in RuleClauses /\ names \cap RulesOf("C14") # {}
+                    \/ clause = "view" /\ names \cap {"boardcount", "boards"} # {}
                     \/ clause \in {"probe", "verifier", "outcome", "refused-but-changed"} /\ op = "select_runout_count"
                     \/ clause \in StateClauses /\ names \cap (RunF \cup {"board", "boardPend"}) # {}
     [] Q \in {"C09", "C15", "C16", "C17", "C20"} -> clause \in TwinClauses
@@ -112,10 +119,32 @@ Report(t, k, clause, op, names, kinds, info) ==
   IF Relevant(clause, op, names, kinds) THEN PrintT(<<"MISMATCH", t, k, clause, op, names, info>>) ELSE TRUE
 
 \* an observed state carries, besides the abstract state, the implementation's own reports (pots, total)
-Core(St) == [f \in (DOMAIN St) \ {"pots", "total"} |-> St[f]]
+Core(St) == [f \in (DOMAIN St) \ {"pots", "total", "view"} |-> St[f]]
+\* the public read-only properties of the State, as the model derives them from the abstract state
+NoneP(b, v) == IF b THEN v ELSE -1
+View(C, St) ==
+  LET act == St.actors # <<>>
+      gate == RaiseGate(C, St)
+      holeOK == St.street # 0 /\ HoleGate(St)
+      showing == St.showq # <<>> \/ AnyT(St.killPend)
+  IN [actor |-> IF act THEN Head(St.actors) ELSE 0,
+      turn |-> IF AnyT(St.drawPend) THEN FirstT(St.drawPend) ELSE IF act THEN Head(St.actors) ELSE IF St.showq # <<>> THEN Head(St.showq) ELSE 0,
+      call |-> NoneP(act /\ ~St.bringSt, IF act THEN CallAmount(St) ELSE 0),
+      minto |-> NoneP(gate, IF gate THEN MinTo(C, St) ELSE 0),
+      potto |-> NoneP(gate, IF gate THEN PotTo(C, St) ELSE 0),
+      maxto |-> NoneP(gate, IF gate THEN MaxTo(C, St) ELSE 0),
+      dealee |-> IF holeOK THEN Dealee(C, St) ELSE 0,
+      drawer |-> IF AnyT(St.drawPend) THEN FirstT(St.drawPend) ELSE 0,
+      shower |-> IF St.showq # <<>> THEN Head(St.showq) ELSE 0,
+      boardcount |-> BoardCount(C, St),
+      boards |-> [b \in 1..BoardCount(C, St) |-> BoardCards(C, St, b)],
+      hands |-> IF showing THEN [i \in Pl(C) |-> [b \in 1..BoardCount(C, St) |-> [t \in DOMAIN C.types |-> HandStr(C, St, i, b, t) # NoHand]]] ELSE <<>>,
+      canwin |-> IF showing THEN [i \in Pl(C) |-> St.alive[i] /\ CanWinNow(C, St, i)] ELSE <<>>]
 ObsOK(t, k, op, C, St) ==
   /\ PotsOf(C, St) = St.pots \/ Report(t, k, "pots", op, {}, Kinds(St.log), <<"model", PotsOf(C, St), "code", St.pots>>)
   /\ TotalPot(C, St) = St.total \/ Report(t, k, "total-pot", op, {}, Kinds(St.log), <<"model", TotalPot(C, St), "code", St.total>>)
+  /\ ("view" \notin DOMAIN St \/ St.fault # "") \/ LET m == View(C, Core(St)) IN
+        m = St.view \/ Report(t, k, "view", op, {f \in DOMAIN m : m[f] # St.view[f]}, Kinds(St.log), [f \in {x \in DOMAIN m : m[x] # St.view[x]} |-> <<m[f], St.view[f]>>])
 
 \* rules on an observed state
 RulesOK(t, k, op, C, St) ==
@@ -130,6 +159,8 @@ HistOK(t, k, op, C, St, fl) ==
   LET bad == BrokenHistoryRules(C, St, fl, WantedRules)
       ctx == (IF Live(St) = 0 THEN {"ctx:nobody-live"} ELSE {})
              \cup (IF "C13_opener" \in bad /\ C.n = 2 /\ C.blinds[1] = C.blinds[2] /\ St.street = 1 THEN {"ctx:heads-up-equal-blinds"} ELSE {})
+             \cup (IF "C13_opener" \in bad /\ St.street = 1 /\ \E i \in Pl(C) : PostsBlind(C, i) > 0 /\ EffBlind(C, i) = 0
+                   THEN {"ctx:blind-seat-posted-nothing"} ELSE {})
   IN bad = {} \/ Report(t, k, "rule", op, bad \cup ctx, Kinds(St.log), <<>>)
 
 MicroOK(t, k, op, C, ev) ==
